@@ -157,6 +157,11 @@ int main(void)
                         run_builder(b, p, id, src, L, fd, &ret);
                         model(s, brief, id, payload_buf, L, fd, id <= 0x1fffffff, p);
                         c->evals++;
+                        /* the payload handed in is an input: its bytes must be what they were */
+                        if (L && memcmp(src, payload_buf, L) != 0 && vp_viol(c, "can", bnames[b], fd ? "fd" : "classic", "source-payload-modified", 0, 0)) {
+                            o_s(c, "{\"len\":"); o_u(c, L); o_s(c, ",\"id\":\""); o_x(c, id); o_s(c, "\"}"); o_end(c);
+                            memcpy(src, payload_buf, L);
+                        }
                         vp_tr_bytes(c, p, total);
                         int bad = 0; size_t off = 0, cnt = 0, last = 0;
                         if (placement == 0) bad = vp_arena_diff(c, &a, &off, &cnt, &last);
